@@ -483,19 +483,30 @@ fn check() {
     );
 }
 
-/// Expiry: all event sequences over {A0, A1, B0, B1, T(sleep 60ms + timer)} where A and B are two 2-fragment frames
-/// that use the SAME id (id reuse), timeout 100 ms. Reference decides expiry from harness-measured instants.
+/// Expiry: event sequences over {A0, A1, B0, B1, T(sleep 65 ms + timer)} where A and B are two 2-fragment frames that
+/// use the SAME id (id reuse), and over {A0..A2, B0..B2, T} for two 3-fragment frames (a partial frame that receives a
+/// further fragment and stays partial); timeout 100 ms. Reference decides expiry from harness-measured instants, counted
+/// from the first fragment of the partial frame. Naps are 65 ms so that k naps never land within the 25 ms slack of the
+/// threshold (65 alive, 130 expired).
 fn expiry_check(chk: &Check, ctr: &Ctr) -> (u64, u64) {
+    let r2 = expiry_family(chk, ctr, 2);
+    let r3 = expiry_family(chk, ctr, 3);
+    (r2.0 + r3.0, r2.1 + r3.1)
+}
+
+fn expiry_family(chk: &Check, ctr: &Ctr, nfrag: u8) -> (u64, u64) {
     let timeout = Duration::from_millis(100);
-    let nap = Duration::from_millis(60);
+    let nap = Duration::from_millis(65);
     let slack = Duration::from_millis(25);
-    let a: Vec<Bytes> = vec![Bytes::from_static(&[0, 5, 2, 0, 0xA0]), Bytes::from_static(&[0, 5, 2, 1, 0xA1])];
-    let b: Vec<Bytes> = vec![Bytes::from_static(&[0, 5, 2, 0, 0xB0]), Bytes::from_static(&[0, 5, 2, 1, 0xB1])];
-    // events 0..3 = datagrams A0 A1 B0 B1, 4 = nap + timer
+    let nd = 2 * nfrag; // datagram events 0..nd, event nd = nap + timer
+    let tev = nd;
+    let a: Vec<Bytes> = (0..nfrag).map(|i| Bytes::from(vec![0, 5, nfrag, i, 0xA0 + i])).collect();
+    let b: Vec<Bytes> = (0..nfrag).map(|i| Bytes::from(vec![0, 5, nfrag, i, 0xB0 + i])).collect();
+    let max_naps = if nfrag == 2 { 99 } else if chk.thorough() { 5 } else { 3 };
     let mut all: Vec<Vec<u8>> = vec![];
     // structured set (both tiers): every sub-sequence of A0 A1 B0 B1 with >= 2 datagrams, with 0..2 naps in every gap
-    for mask in 0u8..16 {
-        let ds: Vec<u8> = (0..4u8).filter(|i| mask & (1 << i) != 0).collect();
+    for mask in 0u32..(1 << nd) {
+        let ds: Vec<u8> = (0..nd).filter(|i| mask & (1 << i) != 0).collect();
         if ds.len() < 2 {
             continue;
         }
@@ -505,17 +516,18 @@ fn expiry_check(chk: &Check, ctr: &Ctr) -> (u64, u64) {
             let mut s = vec![ds[0]];
             for g in 0..gaps {
                 for _ in 0..(c % 3) {
-                    s.push(4);
+                    s.push(tev);
                 }
                 c /= 3;
                 s.push(ds[g + 1]);
             }
-            if s.contains(&4) {
+            let naps = s.iter().filter(|&&e| e == tev).count();
+            if naps > 0 && naps <= max_naps {
                 all.push(s);
             }
         }
     }
-    if chk.thorough() {
+    if chk.thorough() && nfrag == 2 {
         // full alphabet, all sequences up to length 6 with at least one nap and two datagrams
         let mut seqs: Vec<Vec<u8>> = vec![vec![]];
         for _ in 0..6 {
@@ -561,10 +573,12 @@ fn expiry_check(chk: &Check, ctr: &Ctr) -> (u64, u64) {
                     }
                     Some(Ok(outs)) => ctr.outcomes.add(&("expiry", outs)),
                     Some(Err((step, msg))) => {
-                        let names = ["A0", "A1", "B0", "B1", "nap+timer"];
-                        let pretty: Vec<&str> = s.iter().map(|&e| names[e as usize]).collect();
+                        let pretty: Vec<String> = s
+                            .iter()
+                            .map(|&e| if e == tev { "nap+timer".to_string() } else if e < nfrag { format!("A{}", e) } else { format!("B{}", e - nfrag) })
+                            .collect();
                         let class = if msg.contains("panicked") { "expiry:panic" } else if msg.contains("lost") { "expiry:live-partial-frame-discarded" } else { "expiry:other" };
-                        chk.violation("fragment.timer", class, format!("sequence {:?} step {step}: {msg}", pretty), json!({"events": pretty, "timeout_ms": 100, "nap_ms": 60}));
+                        chk.violation("fragment.timer", class, format!("sequence {:?} step {step}: {msg}", pretty), json!({"events": pretty, "fragments_per_frame": nfrag, "timeout_ms": 100, "nap_ms": 65}));
                     }
                 }
             });
@@ -588,7 +602,7 @@ fn run_expiry(
     let mut created: Option<(Instant, Instant)> = None;
     let mut outs = vec![];
     for (i, &e) in s.iter().enumerate() {
-        if e == 4 {
+        if e as usize == a.len() + b.len() {
             std::thread::sleep(nap);
             let u0 = Instant::now();
             if catch(|| real.timer()).is_err() {
@@ -606,12 +620,7 @@ fn run_expiry(
                 }
             }
         } else {
-            let d = match e {
-                0 => &a[0],
-                1 => &a[1],
-                2 => &b[0],
-                _ => &b[1],
-            };
+            let d = if (e as usize) < a.len() { &a[e as usize] } else { &b[e as usize - a.len()] };
             let had = rf.partial.contains_key(&5);
             let c0 = Instant::now();
             let got = match catch(|| real.reassemble(d.clone())) {
